@@ -1,29 +1,23 @@
 (* C01 property theorems.
 
-   Model layers (coq/C01/Model.v):  [query] is the literal dict-of-sets code (working_factors / elim_step /
-   final_pairs); [pool_*] is the same algorithm on ONE global set of (factor, origin) tuples, of which
-   working_factors[v] is the index {p | v in scope p}.
+   Model (coq/C01/Model.v): [ve_joint]/[ve_per_variable] are the literal dict-of-sets code of
+   _get_working_factors + _variable_elimination (identity-tagged tuples, fix 2ce9c42); [greedy_*] the einsum
+   branch; [prune] _prune_bayesian_model; [virtual_model]/[virtual_evidence] _virtual_evidence; [query] chains
+   them as VariableElimination.query does.  [pool_*] is the same algorithm on one global set of tuples.
 
-   FULL STATEMENT (target):  for every valid_bn b, disjoint Q, ev with pev <> 0, every elimination-order option,
-   joint flag and set-iteration parameter [ord]:
-       feval (result of Model.query) a = Spec.posterior card b Q ev vev a      (joint=True)
-       feval (result for q) a          = Spec.posterior_marginal ... q a       (joint=False).
-   (Before fix 2ce9c42 a faithful model refuted this for the classic path: Python's set merged two different
-   evidence-reduced factors that compared equal.  The code now tags working factors by identity; the model
-   follows it, and the former witness is C01_equal_tables_witness_ok / harness/corpus/C01.)
-
-   PROVED here, unbounded: the elimination loop with the eliminated-variables filter, for every order and every
-   set-iteration order, on every pool whose origins are fresh (C01_ve_any_order, order independence, refinement
-   of Base/VE.ve_run); normalisation of a proportional table (C01_normalised_is_posterior_partial); the
-   heuristics return permutations (C01_heuristics_perm).
-   MISSING (hence _partial): (a) the index lemma dict-of-sets == pool for init/evidence/elimination/final
-   collection; (b) the evidence phase under collision_free (c * prod(pool) = joint at the evidence);
-   (c) per-variable mode, greedy path, virtual evidence, barren and d-separation pruning theorems.  All of (a)-(c)
-   are exercised on every run by the correspondence check (model vs pgmpy vs extracted Spec.posterior). *)
+   PROVED, unbounded, for the literal code:
+     C01_query_is_posterior, C01_per_variable_is_marginal, C01_answer_independent_of_order   (classic path:
+       dict == pool index lemma, evidence phase, elimination loop for every order, final collection, normalize)
+     C01_greedy_path (joint and per-variable), C01_virtual_evidence, C01_prune_barren, C01_heuristics_perm,
+     and the pool-level C01_ve_any_order / C01_ve_order_independent / C01_working_factors_refines_ve_run_partial.
+   NOT proved in general: soundness of the d-separation step of [prune] and that the non-ancestors always admit
+   a leaf-first enumeration (finite-domain theorem C01_prune_dsep_3nodes_grid3 instead); that the augmented
+   network of _virtual_evidence is again a valid_bn (C01_virtual_evidence is stated on the unnormalised answer,
+   which needs no such fact); the composition [query] = prune ; ve is therefore tied by the correspondence run. *)
 From Coq Require Import List Arith Lia PeanoNat Bool QArith Qcanon Permutation.
 From PV Require Import Base.Semiring Base.Ravel Base.FinSum Base.RefFactor Base.VE Base.Graph
   C01.Model C01.Spec C01.Proofs C01.ProofsElim C01.ProofsMisc C01.ProofsIdx C01.ProofsFinal C01.ProofsEvid
-  C01.ProofsQuery C01.ProofsPost C01.ProofsPrune C01.ProofsGreedy C01.ProofsVirt.
+  C01.ProofsQuery C01.ProofsPost C01.ProofsPrune C01.ProofsGreedy C01.ProofsVirt C01.ProofsDsep.
 Import ListNotations.
 Local Open Scope nat_scope.
 
@@ -226,6 +220,19 @@ Proof.
   intros t Ht. destruct (Hall t Ht) as [A1 [A2 [A3 [A4 A5]]]]. repeat split; try assumption. intros w [].
 Qed.
 Print Assumptions C01_virtual_evidence.
+
+
+(* ---- the whole _prune_bayesian_model (d-separation step + ancestral step + CPD marginalisation), finite domain:
+   FULL STATEMENT (not proved): for every valid_bn b, Q, ev with pev b Q ev <> 0:  let (b2, ev2) := prune b Q ev in
+   pev b2 Q ev2 <> 0 and posterior b2 Q ev2 = posterior b Q ev.   Missing: the d-separation factorisation argument
+   and the existence of a leaf-first enumeration of the non-ancestors (the barren part itself is C01_prune_barren).
+   Proved by computation: the statement ([prune_ok], cross-multiplied) for the 8 DAGs on 3 binary nodes with edges
+   from lower to higher id (every 3-node DAG up to renaming), all CPDs with P(x=0|pa) in {0, 1/4, 1/2}
+   (3672 networks) and all 37 assignments of the nodes to query / evidence 0 / evidence 1 / neither. *)
+Theorem C01_prune_dsep_3nodes_grid3 :
+  forall b, In b all_bns3 -> forall qe, In qe all_qe3 -> prune_ok b (fst qe) (snd qe) = true.
+Proof. exact prune_sound_3nodes_grid3. Qed.
+Print Assumptions C01_prune_dsep_3nodes_grid3.
 
 (* every ordering heuristic returns a permutation of the variables it is asked to order *)
 Theorem C01_heuristics_perm :
